@@ -128,6 +128,16 @@ def doctest_lines(fn):
         elif kind == 'block_directive':
             out_doc.append(ex_ind + '>>> # xdoctest: +REQUIRES(module:os)')
             expected.append('# xdoctest: +REQUIRES(module:os)')
+        elif kind == 'deep_expr':
+            # a chain of several hundred binary operators: fine for Python, too deep for a recursive AST walker
+            terms = ' + '.join(['1'] * 20)
+            out_doc.append(ex_ind + '>>> big = (' + terms)
+            expected.append('big = (' + terms)
+            for _ in range(34):
+                out_doc.append(ex_ind + '...        + ' + terms)
+                expected.append('       + ' + terms)
+            out_doc.append(ex_ind + '...        )')
+            expected.append('       )')
         elif kind == 'inline_directive':
             out_doc.append(ex_ind + '>>> q0 = [1,  # xdoctest: +SKIP')
             out_doc.append(ex_ind + '...       2]')
@@ -321,7 +331,7 @@ def case_strategy(D, max_funcs, max_groups):
         if special is None:
             p = programs.gen_program(D, max_groups=max_groups)
             fn['prog'] = {k: p[k] for k in ('doc', 'labels', 'exec_lines', 'example_indent')}
-            fn['pre'] = D.subset(['star', 'block_directive', 'inline_directive', 'star2'], max_size=2) if D.chance(1, 2) else []
+            fn['pre'] = D.subset(['star', 'block_directive', 'inline_directive', 'star2', 'deep_expr'], max_size=2) if D.chance(1, 2) else []
             fn['post'] = D.subset(['skip_block', 'star_late'], max_size=1) if D.chance(1, 3) else []
             big = any(g['kind'] in ('tstr', 'tstr_unpref', 'tstr_col0', 'tstr_col0_dq', 'tstr_blank', 'mlist', 'mcall', 'mdict',
                                     'comment_in_br', 'valtuple_ml') for g in p['groups'])
